@@ -695,6 +695,7 @@ Proof.
   destruct (negb (match c_mode c with Some m => m | None => depth prog1 >? 1 end)).
   - eexists. split; [|intros; reflexivity].
     destruct (negb (depth prog1 =? 1)); [discriminate|]. destruct (negb (balanced prog1)); [discriminate|].
+    destruct (l_len prog1 >? c_max c); [discriminate|].
     apply bind_nf; [|intros; apply calc_segments_nf]. unfold parse_single.
     apply bind_nf; [apply parse_table_nf|]. intros [es known]. discriminate.
   - destruct (negb (depth prog1 >? 1)); [exists (Err EAssert); split; [discriminate|reflexivity]|].
